@@ -277,7 +277,13 @@ class Ctx:
             "seed": int(os.environ.get("VERIF_SEED", "0") or 0),
             "level": self.level,
             "coverage": cov,
-            "assumptions": self.assumptions,
+            "assumptions": self.assumptions or [
+                "rustc's name resolution, type check and MIR construction, and the pmh-facts driver's serialisation of them",
+                "the rule tables in pmh/rules (each row confirmed by reading the code) and the idiom lists of the template rules",
+                "library code under cfg(test) is not library behaviour and is not analysed; configurations analysed: " + ", ".join(self.configs),
+                "dependency crates (rand, rand_xoshiro, rand_chacha, wyhash, sha2, murmur3, serde_json, argmin) behave as specified",
+                "a pass means the named structural clauses hold on every path of the current source, not that the statistical behaviour is right",
+            ],
             "wall_s": round(wall, 3),
             "violations": len(new),
         }
